@@ -202,7 +202,15 @@ def make_generator(module_name="meth", **kw):
 
 
 def fortran_text(m, module_name="meth"):
-    return make_generator(module_name)(build_code(m))
+    import contextlib
+    import io
+    buf = io.StringIO()
+    with contextlib.redirect_stdout(buf):          # kind inference prints its left-overs
+        try:
+            return make_generator(module_name)(build_code(m))
+        except Exception as e:
+            e.args = (str(e) + " | " + buf.getvalue()[-300:].replace("\n", " / "),)
+            raise
 
 
 def fortran_driver(text, m, module_name="meth"):
